@@ -350,7 +350,12 @@ impl<C: CellType> OptRebuild<'_, C> {
                     let mut last = isize::MIN;
                     for &var in vars {
                         if let Some(expr) = self.pending.get(&var) {
-                            if expr.add_count() > 1 || (last == var && expr.op_count() > 1) {
+                            // Products of pending products double in size with every
+                            // substitution (e.g. repeated squaring), so bound them too.
+                            if expr.add_count() > 1
+                                || (last == var && expr.op_count() > 1)
+                                || expr.op_count() > 16
+                            {
                                 self.emit(var);
                             }
                         }
